@@ -9,7 +9,9 @@ from ..core import R, owned, input_labels
 ID = "C01"
 LEVEL = "exploration"
 RULE = ("Hypothesis: key universe (plain ASCII pool) -> 1-5 JSON objects (generic recursive values mixed with shape boosters: "
-        "overlapping sibling objects, recursive data, one field seen missing/null/scalar kinds/[]/[null], dict-like key sets) "
+        "overlapping sibling objects, recursive data, one field seen missing/null/scalar kinds/[]/[null], dict-like key sets, "
+        "a child referring back to its root, same-named children of merged parents, reordered records, one field across the numeric "
+        "family, literal-limit and comma-collision shapes) x user-given root model name "
         "x option set (framework, layout, merge policy, dict-key options, string registry, literal limit, converters, meta, "
         "unicode). Oracle: IR inhabitation of every sample in the root model, code-level inhabitation in the loaded root class "
         "(exactly one field per key, value in evaluated annotation, required fields present), pydantic parse_obj. "
